@@ -44,7 +44,7 @@ func (e *Exec) execInstr(fr *frame, st *State, in ssa.Instruction) {
 				}
 				return
 			}
-			st.Regs[x] = &Ptr{Obj: b.Obj, Path: appendStep(b.Path, Step{Idx: s.Add(idx, s.Int(int64(b.Off)))})}
+			st.Regs[x] = &Ptr{Obj: b.Obj, Path: appendStep(b.Path, Step{Idx: e.slIdx(b, idx)})}
 		default:
 			e.badVal(base, "IndexAddr base at "+where)
 		}
@@ -157,6 +157,15 @@ func (e *Exec) execInstr(fr *frame, st *State, in ssa.Instruction) {
 			st.Regs[v] = &Poison{Why: fmt.Sprintf("%T", in)}
 		}
 	}
+}
+
+// slIdx: backing-array index of element i of a slice.
+func (e *Exec) slIdx(sl *SliceV, i *Term) *Term {
+	r := e.S.Add(i, e.S.Int(int64(sl.Off)))
+	if sl.OffT != nil {
+		r = e.S.Add(r, sl.OffT)
+	}
+	return r
 }
 
 func appendStep(p []Step, s Step) []Step {
@@ -452,7 +461,7 @@ func (e *Exec) convert(st *State, v Val, from, to types.Type, where string) Val 
 			elemIsByte := intBits(fu.(*types.Slice).Elem()) == 8
 			bs := make([]*Term, 0, n)
 			for i := 0; i < int(n); i++ {
-				ev := e.load(st, &Ptr{Obj: sl.Obj, Path: appendStep(sl.Path, Step{Idx: e.S.Int(int64(sl.Off + i))})}, where)
+				ev := e.load(st, &Ptr{Obj: sl.Obj, Path: appendStep(sl.Path, Step{Idx: e.slIdx(sl, e.S.Int(int64(i)))})}, where)
 				t := e.term(ev, "string(slice) elem")
 				if !elemIsByte {
 					if k, ok := t.ConstInt(); ok && k >= 128 {
@@ -588,7 +597,7 @@ func (e *Exec) sliceOp(st *State, x *ssa.Slice, where string) {
 	}
 	switch b := base.(type) {
 	case *StrV, *StrIte:
-		st.Regs[x] = e.strMap(base, func(s *StrV) Val {
+		st.Regs[x] = e.strMapC(base, e.S.True, func(s *StrV, cond *Term) Val {
 			n := strLen(s)
 			l, h := 0, n
 			if lo != nil {
@@ -606,7 +615,7 @@ func (e *Exec) sliceOp(st *State, x *ssa.Slice, where string) {
 				h = int(k)
 			}
 			if l < 0 || h > n || l > h {
-				e.abort(st, "bounds", where, "string slice out of range")
+				e.abortIf(st, cond, "bounds", where+" string slice out of range")
 				return &StrV{}
 			}
 			if s.Sym == nil {
@@ -641,29 +650,35 @@ func (e *Exec) sliceOp(st *State, x *ssa.Slice, where string) {
 		st.Regs[x] = &SliceV{Obj: b.Obj, Path: b.Path, Off: l, Len: s.Sub(hiT, s.Int(int64(l))), Cap: n - l, Elem: at.Elem()}
 		return
 	case *SliceV:
-		l := 0
-		if lo != nil {
-			k, ok := lo.ConstInt()
-			if !ok {
-				e.unsupported(st, "slice with symbolic low at "+where)
-				st.Regs[x] = &Poison{Why: "sym low"}
-				return
-			}
-			l = int(k)
-		}
 		s := e.S
+		loT := s.Int(0)
+		if lo != nil {
+			loT = lo
+		}
 		hiT := b.Len
 		limit := b.Len
 		if hi != nil {
 			hiT = hi
 			limit = s.Int(int64(b.Cap))
+			if b.OffT != nil {
+				limit = s.Sub(limit, b.OffT)
+			}
 		}
-		e.abortIf(st, s.Not(s.And(s.Le(s.Int(int64(l)), hiT), s.Le(hiT, limit))), "bounds", where)
+		e.abortIf(st, s.Not(s.And(s.Le(s.Int(0), loT), s.Le(loT, hiT), s.Le(hiT, limit))), "bounds", where)
 		if b.Obj == 0 {
 			st.Regs[x] = b
 			return
 		}
-		st.Regs[x] = &SliceV{Obj: b.Obj, Path: b.Path, Off: b.Off + l, Len: s.Sub(hiT, s.Int(int64(l))), Cap: b.Cap - l, Elem: b.Elem}
+		ns := &SliceV{Obj: b.Obj, Path: b.Path, Off: b.Off, OffT: b.OffT, Len: s.Sub(hiT, loT), Cap: b.Cap, Elem: b.Elem}
+		if k, ok := loT.ConstInt(); ok {
+			ns.Off += int(k)
+			ns.Cap -= int(k)
+		} else if ns.OffT == nil {
+			ns.OffT = loT
+		} else {
+			ns.OffT = s.Add(ns.OffT, loT)
+		}
+		st.Regs[x] = ns
 		return
 	}
 	e.badVal(base, "Slice at "+where)
@@ -707,14 +722,18 @@ func (e *Exec) strSliceSym(st *State, s *StrV, lo, hi *Term, where string) Val {
 }
 
 func (e *Exec) strIndex(st *State, v Val, idx *Term, where string) Val {
-	return e.strMapT(v, func(s *StrV) *Term {
+	r := e.strMapC(v, e.S.True, func(s *StrV, cond *Term) Val {
 		n := strLen(s)
-		e.boundsCheck(st, idx, n, where)
-		if st.dead() {
+		ok := e.S.And(e.S.Le(e.S.Int(0), idx), e.S.Lt(idx, e.S.Int(int64(n))))
+		e.abortIf(st, e.S.And(cond, e.S.Not(ok)), "bounds", where)
+		if n == 0 {
 			return e.S.Int(0)
 		}
 		bs := e.strBytes(s)
 		if k, ok := idx.ConstInt(); ok {
+			if k < 0 || int(k) >= n {
+				return e.S.Int(0)
+			}
 			return bs[k]
 		}
 		res := bs[n-1]
@@ -723,6 +742,7 @@ func (e *Exec) strIndex(st *State, v Val, idx *Term, where string) Val {
 		}
 		return res
 	})
+	return r
 }
 
 func (e *Exec) strMapT(v Val, f func(*StrV) *Term) *Term {
@@ -743,6 +763,9 @@ func (e *Exec) strLenT(v Val) *Term {
 func (e *Exec) strConcat(a, b Val) Val {
 	return e.strMap(a, func(x *StrV) Val {
 		return e.strMap(b, func(y *StrV) Val {
+			if x.Segs != nil || y.Segs != nil {
+				return e.mkSegs(append(append([]Seg{}, e.segsOf(x)...), e.segsOf(y)...))
+			}
 			if x.Sym == nil && y.Sym == nil {
 				return &StrV{Conc: x.Conc + y.Conc}
 			}
